@@ -1,16 +1,27 @@
 package main
 
 import (
+	"encoding/json"
 	"fmt"
 	"os"
 	"runtime"
+	"runtime/pprof"
 	"sort"
 	"time"
 
 	"verif/engine/hx"
+	"verif/engine/refsem"
 )
 
 func main() {
+	if wd := os.Getenv("SYMGO_WATCHDOG"); wd != "" {
+		d, _ := time.ParseDuration(wd)
+		go func() {
+			time.Sleep(d)
+			pprof.Lookup("goroutine").WriteTo(os.Stderr, 2)
+			os.Exit(3)
+		}()
+	}
 	if len(os.Args) < 2 {
 		fmt.Fprintln(os.Stderr, "usage: symgo selftest | check <ID> [quick|thorough] | replay <file>")
 		os.Exit(2)
@@ -18,6 +29,21 @@ func main() {
 	switch os.Args[1] {
 	case "selftest":
 		os.Exit(selftest())
+	case "try":
+		os.Exit(try(os.Args[2:]))
+	case "check":
+		tier := os.Getenv("VERIF_TIER")
+		if len(os.Args) > 3 {
+			tier = os.Args[3]
+		}
+		if tier == "" {
+			tier = "quick"
+		}
+		var seed int64 = 1
+		if s := os.Getenv("VERIF_SEED"); s != "" {
+			fmt.Sscan(s, &seed)
+		}
+		os.Exit(hx.RunCheck(os.Args[2], tier, seed))
 	default:
 		fmt.Fprintln(os.Stderr, "unknown command", os.Args[1])
 		os.Exit(2)
@@ -56,5 +82,51 @@ func selftest() int {
 	if len(res.Disagree) > 0 || len(res.Inconclusive) > 0 {
 		return 2
 	}
+	t0 = time.Now()
+	ores, err := hx.RunOracleSuite(p)
+	if err != nil {
+		fmt.Println(err)
+		return 2
+	}
+	fmt.Printf("oracle: cases=%d agree=%d disagree=%d in %v\n", ores.Cases, ores.Agree, len(ores.Disagree), time.Since(t0))
+	for i, d := range ores.Disagree {
+		if i > 40 {
+			break
+		}
+		fmt.Println("  ORACLE-DISAGREE", d)
+	}
+	if len(ores.Disagree) > 0 {
+		return 2
+	}
+	return 0
+}
+
+func try(args []string) int {
+	p, err := hx.Program()
+	if err != nil {
+		fmt.Println("load:", err)
+		return 2
+	}
+	draft := refsem.Draft2020
+	depth, maxLen, maxKeys := 2, 2, 3
+	doc := args[0]
+	if len(args) > 1 && args[1] == "7" {
+		draft = refsem.Draft7
+	}
+	sk := &hx.Skeleton{Name: "try", Doc: doc, Draft: draft, Tm: hx.TmplFor([]string{doc}, depth, maxLen, maxKeys)}
+	fmt.Println("key pool:", sk.Tm.Keys)
+	w, err := hx.NewWorker(p, 10000)
+	if err != nil {
+		fmt.Println(err)
+		return 2
+	}
+	defer w.Close()
+	if os.Getenv("SMTLOG") != "" {
+		f, _ := os.Create(os.Getenv("SMTLOG"))
+		w.S.Log = f
+	}
+	res := w.RunValidateSkeleton(sk, hx.VOptions{Property: "C01", ValidatePaths: true})
+	b, _ := json.MarshalIndent(res, "", " ")
+	fmt.Println(string(b))
 	return 0
 }
